@@ -165,6 +165,7 @@ func genOp(r *kit.Rand, slots []*cluster.SlotSpec) *op {
 		}
 		if p(1, 4, "recover-since") {
 			o.SinceOffset = kit.Pick(r, []uint64{0, 1, 2, 3, 3, 9})
+			o.SinceEpoch = kit.Pick(r, []string{"", "", "", "bogus"})
 			if cache {
 				// a position at or beyond the stream top (or of another epoch) recovers nothing in stream mode:
 				// there the option has no observable effect at all, which would make the
@@ -172,7 +173,6 @@ func genOp(r *kit.Rand, slots []*cluster.SlotSpec) *op {
 				o.SinceOffset = kit.Pick(r, []uint64{0, 1, 2})
 				o.SinceEpoch = "" // an unknown epoch recovers nothing in stream mode either
 			}
-			o.SinceEpoch = kit.Pick(r, []string{"", "", "", "bogus"})
 		}
 		if p(1, 4, "history-meta-ttl") {
 			o.MetaTTL = 3
